@@ -351,8 +351,7 @@ struct XParse : Engine {
             int cls = 0; tail_strict_ok(bytes, (size_t)(R[0].end - start), n, &cls);
             if (cls == 1 && !R[1].ok) V("endptr", "terminated-text-rejected", std::string(labels[1]) + ": value followed only by whitespace and a zero byte inside the buffer, but requiring termination failed");
             if (cls == 0 && R[1].ok) V("endptr", "unterminated-text-accepted", std::string(labels[1]) + ": succeeded although the value is not followed by whitespace + zero byte inside the buffer");
-            if (R[1].ok && R[1].end != SENT() && R[1].end >= start && R[1].end < start + n && *(const uint8_t*)(bytes + (R[1].end - start)) != 0 && cls != 2)
-                V("endptr", "require-end-not-at-terminator", std::string(labels[1]) + ": parse end does not designate the terminating zero");
+            // (where the end designates in the requiring mode - behind the value or at the terminator - is not fixed by the property)
         }
         if (!R[0].ok && R[1].ok) V("endptr", "require-accepts-more", "requiring termination succeeded where the plain parse failed");
     }
